@@ -6,3 +6,4 @@ import MtailVerif.Props.C09
 #print axioms MtailVerif.C09.same_datum_iff_equal_tuple
 #print axioms MtailVerif.C09.frame_model
 #print axioms MtailVerif.C08.metric_skeletons
+#print axioms MtailVerif.C08.f_metrics_metric_skeletons
